@@ -88,6 +88,8 @@ pub fn pattern(id: u8, len: usize) -> Vec<u8> {
             1 => 0xFF,
             2 => [0xA5u8, 0x3C, 0x5A, 0xC3, 0x96, 0x69, 0x0F][i % 7],
             3 => (i as u8).wrapping_mul(89).wrapping_add(0xE7),
+            // no short period (patterns 0 and 3 repeat every 256 bytes, which would hide offsets wrong by a multiple of 256)
+            4 => ((i as u32 ^ 0x5bd1).wrapping_mul(2_654_435_761) >> 15) as u8 ^ ((i >> 8) as u8).wrapping_mul(29),
             _ => 0,
         })
         .collect()
